@@ -367,6 +367,37 @@ def shrink_case(case, still_fails, max_rounds=6):
                 i += 1
         if not changed:
             break
+    # schedules (`sched t t t ...`): drop the tail, then single entries
+    for li, line in enumerate(body):
+        if not line.startswith("sched "):
+            continue
+        toks = line.split()[1:]
+
+        def attempt(ts):
+            b2 = body[:li] + ["sched " + " ".join(ts)] + body[li + 1:]
+            try:
+                return still_fails({"id": case["id"], "lines": [head] + b2 + [tail]})
+            except Exception:
+                return False
+        # binary-search-ish tail truncation
+        while len(toks) > 0:
+            cut = max(1, len(toks) // 4)
+            if attempt(toks[:-cut]):
+                toks = toks[:-cut]
+            elif cut > 1 and attempt(toks[:-1]):
+                toks = toks[:-1]
+            else:
+                break
+        i = 0
+        budget = 150
+        while i < len(toks) and budget > 0:
+            budget -= 1
+            cand = toks[:i] + toks[i + 1:]
+            if attempt(cand):
+                toks = cand
+            else:
+                i += 1
+        body[li] = "sched " + " ".join(toks)
     return {"id": case["id"], "lines": [head] + body + [tail]}
 
 
